@@ -7,7 +7,7 @@
 From Coq Require Import List NArith ZArith.
 From GM Require Import Base.Lts Codec.Packet Session.Store Client.Future Client.Client Client.ClientSpec
   Client.ClientWitness Client.ClientInvSbs Client.ClientInvRx Client.ClientKept Client.ClientTruth Client.ClientTotal
-  Client.TraceScan Client.ClientScanProofs Client.ClientHist Client.Tracker Client.ClientResend.
+  Client.TraceScan Client.ClientScanProofs Client.ClientHist Client.Tracker Client.ClientResend Client.ClientScan3.
 Import ListNotations.
 Open Scope N_scope.
 
@@ -77,6 +77,13 @@ Theorem C09_scan_resend_sound : forall es s, run step init es = Some s ->
   scan_resend RNone es = Some (rexp_of (k_ppc (k s))).
 Proof. exact scan_resend_accepted. Qed.
 Print Assumptions C09_scan_resend_sound.
+
+(* kept-until-acknowledged scanner: DeletePacket(Outgoing, id) only as the processor's first move after an
+   acknowledgement carrying id, SavePacket(Outgoing, PUBREL id) only as its first move after PUBREC id *)
+Theorem C09_scan_kept_sound : forall es s, run step init es = Some s ->
+  exists x, scan_kept None es = Some x /\ krel x (k_ppc (k s)).
+Proof. exact scan_kept_accepted. Qed.
+Print Assumptions C09_scan_kept_sound.
 
 (* client.Tracker (keep-alive arithmetic) and the pinger's rule, over an explicit clock (Client/Tracker.v) *)
 Local Open Scope Z_scope.
